@@ -275,17 +275,17 @@ func check(c Case, r *vh.R) {
 		target.ResponseHeaders.Add(m.Name, m.Value)
 		changed = true
 	case m.Class == "hdr-remove":
-		k := pickKey(target.ResponseHeaders, m.Pos)
-		target.ResponseHeaders.Del(k)
+		k := pickNamed(target.ResponseHeaders, m.Pos, m.Name)
+		delete(target.ResponseHeaders, k)
 		changed = true
 	case m.Class == "hdr-edit":
-		k := pickKey(target.ResponseHeaders, m.Pos)
+		k := pickNamed(target.ResponseHeaders, m.Pos, m.Name)
 		vs := target.ResponseHeaders[k]
 		vs[0] = vs[0] + m.Value
 		changed = true
 	case m.Class == "hdr-split":
 		// one value "a" becomes two values "a","b" (joined "a,b")
-		k := pickKey(target.ResponseHeaders, m.Pos)
+		k := pickNamed(target.ResponseHeaders, m.Pos, m.Name)
 		target.ResponseHeaders[k] = append(target.ResponseHeaders[k], m.Value)
 		changed = true
 	case m.Class == "hdr-case":
@@ -507,6 +507,24 @@ func check(c Case, r *vh.R) {
 	}
 }
 
+// formatNames are header names to which the format, the verifier or HTTP itself gives a meaning
+// (the envelope's own Signature field, the integrity headers, what the acceptance policy reads):
+// as INNER fields of the signed response / request they are ordinary signed content.
+var formatNames = []string{"Signature", "signature", "SIGNATURE", "Digest", "MI", "Content-Encoding", "Content-Type", "Cache-Control", "Link", "Date", "Expires",
+	"Host", "Content-Length", "Variants", "Variant-Key", "Accept-Signature", "Signed-Headers", "Vary"}
+
+// pickNamed: the key spelled like name (any letter case) if the map has one, else pickKey.
+func pickNamed(h http.Header, pos int, name string) string {
+	if name != "" {
+		for k := range h {
+			if strings.EqualFold(k, name) {
+				return k
+			}
+		}
+	}
+	return pickKey(h, pos)
+}
+
 func pickKey(h http.Header, pos int) string {
 	ks := make([]string, 0, len(h))
 	for k := range h {
@@ -572,6 +590,8 @@ func genMut(t *rapid.T, s *sxgkit.Spec) (Mut, string) {
 			// names in pseudo-header style: the decoders give meaning to :status / :method / :url only
 			// and hand every other ":name" to the caller as an ordinary field, so it must be signed
 			m.Name = rapid.SampledFrom([]string{":x-injected", ":authority", ":path", ":scheme", ":status", ":method", ":url", ":"}).Draw(t, "pseudoname")
+		} else if rapid.IntRange(0, 2).Draw(t, "formatname") == 0 {
+			m.Name = rapid.SampledFrom(formatNames).Draw(t, "fname")
 		}
 		m.Value = rapid.SampledFrom([]string{"", "x", "a,b"}).Draw(t, "newval")
 	case cls == "hdr-remove" || cls == "hdr-case":
@@ -665,6 +685,46 @@ func baseSpecs() []sxgkit.Spec {
 		}
 	}
 	return out
+}
+
+// TestFieldSweep: every name of formatNames (and two ordinary ones) as an inner response field
+// and, for b1/b2, as an inner request field: added to a signed exchange that lacks it, and -
+// in an exchange signed WITH it - edited and removed; in memory and on the object read back
+// from the file.
+func TestFieldSweep(t *testing.T) {
+	total := 0
+	for _, v := range []string{"1b1", "1b2", "1b3"} {
+		for fx, name := range append([]string{"X-Ordinary", "x-lower"}, formatNames...) {
+			for _, parsed := range []bool{false, true} {
+				sp := sxgkit.Spec{Version: v, URL: "https://a.example/p?q=1", Method: "GET", Status: 200,
+					ResHeaders: []gen.HeaderKV{{Name: "Content-Type", Values: []string{"text/html"}}, {Name: "X-Foo", Values: []string{"a"}}},
+					PayloadLen: 40, PayloadTag: 5, RecordSize: 16, Fixture: fx % 2, Date: 1_700_000_000, Expires: 1_700_000_000 + 86400,
+					ValidityURL: "https://a.example/v", CertURL: "https://c.example/c"}
+				muts := []Mut{{Class: "hdr-add", Name: name, Value: "injected"}}
+				if v != "1b3" {
+					muts = append(muts, Mut{Class: "reqhdr-add", Name: name, Value: "injected"})
+				}
+				for _, m := range muts {
+					total++
+					if !prop.One(t, Case{Spec: sp, Mut: m, Time: "mid", Parsed: parsed}) {
+						return
+					}
+				}
+				if strings.EqualFold(name, "Content-Type") || strings.EqualFold(name, "Content-Encoding") || strings.EqualFold(name, "Digest") || strings.EqualFold(name, "MI") {
+					continue // set by the builder itself
+				}
+				with := sp
+				with.ResHeaders = append(append([]gen.HeaderKV{}, sp.ResHeaders...), gen.HeaderKV{Name: name, Values: []string{"signed-value"}})
+				for _, m := range []Mut{{Class: "hdr-edit", Name: name, Value: "x"}, {Class: "hdr-remove", Name: name}, {Class: "hdr-split", Name: name, Value: "b"}, {Class: "none"}} {
+					total++
+					if !prop.One(t, Case{Spec: with, Mut: m, Time: "mid", Parsed: parsed}) {
+						return
+					}
+				}
+			}
+		}
+	}
+	vh.Count("tamper", "field-sweep-cases", int64(total))
 }
 
 func TestExhaustiveFlips(t *testing.T) {
